@@ -62,7 +62,7 @@ class Mapping:
 
 
 class Proc:
-    def __init__(self, pid, inc=1, comm=b"proc", state="S", ppid=1, start=0):
+    def __init__(self, pid, inc=1, comm=b"p) (q) 1", state="S", ppid=1, start=0):     # (a default name that punishes careless stat parsing)
         self.pid, self.inc, self.comm, self.state = pid, inc, comm, state
         self.ppid, self.starttime = ppid, start
         self.tty_nr = 0
